@@ -105,6 +105,18 @@ def o_request(ctx, entries, via_lvl, second=False, intruder=False):
             ctx.check(s_or(*[s_and(a == cand, k != rid) for k, a in before]) if before else False,
                       "nothing is granted only when every slot of that parent is leased to another ID")
     ctx.observe("after", [[k, a] for k, a in after])
+    if second == "reassign" and mine:
+        # the application hands the address just granted to another ID (set_address by address); the first ID asks again:
+        # still no address is leased to two IDs
+        nid = ctx.int("new_owner", 1, 255)
+        ctx.assume(s_and(nid != rid, *[nid != k for k, _a in after]))
+        node.set_address(nid, mine[0], True)
+        invariant(ctx, table_items(node), "after set_address(new id, granted address, search_by_address)")
+        radio.inject_rx(ctx.int("pipe_again", 0, 5), frame)
+        node.update()
+        invariant(ctx, table_items(node), "after the first ID asked again")
+        ctx.reached()
+        return
     # a following frame that is NOT an address request (a look-up from a connected node, carrying a non-zero reserved byte)
     # must not be served as one: asking never disturbs the master
     if entries <= 2:
@@ -229,6 +241,8 @@ def jobs(tier):
         for via in range(4):
             out.append(Job("request-step", o_request, dict(entries=k, via_lvl=via), cost=4 ** k, shards=(1 if k < 3 else 4 if k == 3 else 12)))
         out.append(Job("release-step", o_release, dict(entries=k), cost=2 ** k))
+    for k, via in (((1, 0), (2, 1)) if tier == "quick" else ((0, 0), (1, 0), (2, 1), (2, 2), (3, 0))):
+        out.append(Job("request-then-set_address-then-request", o_request, dict(entries=k, via_lvl=via, second="reassign"), cost=10 * 4 ** k, shards=2))
     for via in ((2,) if tier == "quick" else (2, 3)):
         out.append(Job("request-step-with-an-intruding-look-up", o_request, dict(entries=1, via_lvl=via, intruder=True), cost=20, shards=2))
     for count in ((0, 1, 128, 255) if tier == "quick" else (0, 1, 2, 64, 127, 128, 200, 254, 255)):
